@@ -503,6 +503,8 @@ class Executor:
         run = Run(step, job_i=job_i)
         new_step_hash, new_inp_hashes = await self._compute_inp_step_hash(run, inp_hashes, env_deps)
         if new_step_hash is not None:
+            # The inputs on disk agree with these hashes right now, before the command starts.
+            run.start_inp_hashes = dict(inp_hashes)
             return run, new_step_hash
 
         # Either the hash computation was cancelled because the build is shutting down
@@ -768,11 +770,16 @@ class Executor:
             # Some inputs may be dynamic and still unavailable,
             # for which checking hashes is too early.
             # Therefore, only check the hashes of built and confirmed files.
-            inp_hashes = {
-                rec.path: rec.hash
-                for rec in run.step.inp_paths()
-                if rec.state in (FileState.BUILT, FileState.CONFIRMED)
-            }
+            # An input that was verified when the run started is compared with the hash it had
+            # then, whatever its state and stored hash are now: another step that noticed
+            # the same change in the meantime has already updated them, and comparing with
+            # the updated record would let this step succeed on content it did not read.
+            inp_hashes = {}
+            for rec in run.step.inp_paths():
+                if rec.path in run.start_inp_hashes:
+                    inp_hashes[rec.path] = run.start_inp_hashes[rec.path]
+                elif rec.state in (FileState.BUILT, FileState.CONFIRMED):
+                    inp_hashes[rec.path] = rec.hash
             env_deps = list(run.step.env_deps())
             out_hashes = {rec.path: rec.hash for rec in run.step.out_paths()}
             shell = run.step.uses_shell()
